@@ -395,6 +395,19 @@ theorem lookup_mem {α β : Type} [BEq α] [LawfulBEq α] {l : List (α × β)} 
       subst this; simp at h; simp [h]
     · simp [ih h]
 
+/-- the first entry with the key counts: nothing before it carries the key, whatever follows -/
+theorem lookup_append_first {α β : Type} [BEq α] [LawfulBEq α] (pre post : List (α × β)) (k : α) (v : β)
+    (hpre : ∀ e ∈ pre, e.1 ≠ k) : (pre ++ (k, v) :: post).lookup k = some v := by
+  induction pre with
+  | nil => rw [List.nil_append, List.lookup_cons]; simp
+  | cons x rest ih =>
+    obtain ⟨k', v'⟩ := x
+    have hne : (k == k') = false := by
+      have := hpre (k', v') (List.mem_cons_self ..)
+      simpa using fun e : k = k' => this e.symm
+    rw [List.cons_append, List.lookup_cons, hne]
+    exact ih (fun e he => hpre e (List.mem_cons_of_mem _ he))
+
 /-- everything the ante handler checked when it accepted -/
 theorem anteOK_true {s : State} {t : Tx} {sim : Bool} (h : anteOK s t sim = true) :
     0 ≤ t.feeEff ∧ t.mutn ≠ "emptysig" ∧ (t.memoEff : Int) ≤ s.p.maxMemo ∧
